@@ -1305,6 +1305,177 @@ def attribute_sweep(ctx):
             pass
     return fails, evals
 
+# ---- two-handle sweep: no answer of a live handle may depend on what that handle happened to read earlier -----------
+
+
+def probes(obj):
+    """answers computed by methods (not properties) that a per-handle cache could make stale"""
+    out = {}
+
+    def tryp(name, fn):
+        try:
+            with contextlib.redirect_stdout(io.StringIO()):
+                out[name] = canon_value(fn())
+        except Exception as e:
+            out[name] = {"!": type(e).__name__}
+    if isinstance(obj, nixio.SampledDimension):
+        tryp("index_of(1.3)", lambda: obj.index_of(1.3))
+        tryp("position_at(3)", lambda: obj.position_at(3))
+        tryp("axis(3)", lambda: list(obj.axis(3)))
+        tryp("range_indices(0.5,2.5)", lambda: obj.range_indices(0.5, 2.5))
+    elif isinstance(obj, nixio.RangeDimension):
+        tryp("index_of(2.2)", lambda: obj.index_of(2.2))
+        tryp("tick_at(1)", lambda: obj.tick_at(1))
+        tryp("axis(2)", lambda: list(obj.axis(2)))
+    elif isinstance(obj, nixio.SetDimension):
+        tryp("index_of(1.0)", lambda: obj.index_of(1.0))
+    elif isinstance(obj, nixio.DataFrame):
+        tryp("read_rows(all)", lambda: [list(map(canon_value, r)) for r in obj.read_rows(range(len(obj)))])
+        tryp("df_shape", lambda: obj.df_shape)
+    elif isinstance(obj, nixio.Section):
+        tryp("len", lambda: len(obj))
+        tryp("keys", lambda: list(obj.keys()))
+    elif isinstance(obj, nixio.DataArray):
+        tryp("len", lambda: len(obj))
+        tryp("get_slice", lambda: {"array": W.data_hash(obj.get_slice([0] * len(obj.shape), [1] * len(obj.shape))[:])})
+    return out
+
+
+def xintrospect(obj):
+    rec = introspect(obj)
+    rec.update(probes(obj))
+    return rec
+
+
+def two_handle_sweep(ctx):
+    """for one entity of every kind: handle A is obtained and read completely (so that any cache it has is filled);
+    then each mutation is made through a second handle B of the same entity, and A must show what a fresh handle
+    shows - for every readable property, the data and the method answers in `probes`"""
+    fails, evals = [], 0
+    path = ctx.tmpfile("c02-two-handles.nix")
+    f = nixio.File.open(path, nixio.FileMode.Overwrite)
+    try:
+        from collections import OrderedDict
+        b = f.create_block("b", "t")
+        da = b.create_data_array("a", "t", data=np.arange(6.0).reshape(2, 3))
+        da.append_sampled_dimension(0.5, offset=0.25)
+        da.append_range_dimension([1.0, 2.0, 3.0])
+        v = b.create_data_array("v", "t", data=np.array([1, 2, 3], dtype=np.int32))
+        v.append_set_dimension(["x", "y", "z"])
+        other = b.create_data_array("p2", "t", data=[4.0, 5.0])
+        b.create_data_frame("df", "t", col_dict=OrderedDict([("n", int), ("s", str), ("x", float)]),
+                            data=[(1, "a", 0.5), (2, "b", 1.5)])
+        g = b.create_group("g", "t")
+        tg = b.create_tag("tg", "t", [1.0])
+        mt = b.create_multi_tag("mt", "t", positions=b.create_data_array("p", "t", data=[1.0, 2.0]))
+        tg.create_feature(da, "tagged")
+        src = b.create_source("s", "t")
+        sec = f.create_section("sec", "t")
+        sec.create_property("pf", [1.5, 2.5])
+        sec.create_property("pi", [1, 2])
+        B = lambda f: f.blocks["b"]
+        getters = OrderedDict([
+            ("block", B), ("array", lambda f: B(f).data_arrays["a"]), ("int array", lambda f: B(f).data_arrays["v"]),
+            ("frame", lambda f: B(f).data_frames["df"]), ("group", lambda f: B(f).groups["g"]),
+            ("tag", lambda f: B(f).tags["tg"]), ("multi_tag", lambda f: B(f).multi_tags["mt"]),
+            ("feature", lambda f: B(f).tags["tg"].features[0]), ("source", lambda f: B(f).sources["s"]),
+            ("section", lambda f: f.sections["sec"]), ("float property", lambda f: f.sections["sec"].props["pf"]),
+            ("int property", lambda f: f.sections["sec"].props["pi"]),
+            ("sampled dimension", lambda f: B(f).data_arrays["a"].dimensions[0]),
+            ("range dimension", lambda f: B(f).data_arrays["a"].dimensions[1]),
+            ("set dimension", lambda f: B(f).data_arrays["v"].dimensions[0]),
+        ])
+        special = {
+            "array": [("append a row", lambda h: h.append(np.array([[7.0, 8.0, 9.0]]), axis=0)),
+                      ("assign a region", lambda h: h.__setitem__((0, slice(0, 2)), [40.0, 41.0])),
+                      ("shrink", lambda h: setattr(h, "data_extent", (2, 3))),
+                      ("calibrate", lambda h: setattr(h, "polynom_coefficients", [1.0, 2.0])),
+                      ("origin", lambda h: setattr(h, "expansion_origin", 0.5)),
+                      ("clear calibration", lambda h: setattr(h, "polynom_coefficients", None)),
+                      ("clear origin", lambda h: setattr(h, "expansion_origin", None)),
+                      ("add source", lambda h: h.sources.append(B(f).sources["s"])),
+                      ("set metadata", lambda h: setattr(h, "metadata", f.sections["sec"]))],
+            "int array": [("append", lambda h: h.append(np.array([9], dtype=np.int32), axis=0)),
+                          ("write", lambda h: h.write_direct(np.array([5, 6, 7, 8], dtype=np.int32)))],
+            "frame": [("append rows", lambda h: h.append_rows([(3, "c", 2.5)])),
+                      ("append column", lambda h: h.append_column([1.0, 2.0, 3.0], "y", float)),
+                      ("write cell", lambda h: h.write_cell(9, position=(0, 0))),
+                      ("write column", lambda h: h.write_column([7.5, 8.5, 9.5], name="x"))],
+            "group": [("link array", lambda h: h.data_arrays.append(B(f).data_arrays["a"])),
+                      ("link tag", lambda h: h.tags.append(B(f).tags["tg"])),
+                      ("unlink array", lambda h: h.data_arrays.__delitem__(0))],
+            "tag": [("position", lambda h: setattr(h, "position", [2.0, 1.0])),
+                    ("extent", lambda h: setattr(h, "extent", [0.5, 1.0])),
+                    ("units", lambda h: setattr(h, "units", ["ms", "mV"])),
+                    ("reference", lambda h: h.references.append(B(f).data_arrays["a"])),
+                    ("feature", lambda h: h.create_feature(B(f).data_arrays["v"], "untagged"))],
+            "multi_tag": [("positions", lambda h: setattr(h, "positions", B(f).data_arrays["p2"])),
+                          ("extents", lambda h: setattr(h, "extents", B(f).data_arrays["p2"])),
+                          ("no extents", lambda h: setattr(h, "extents", None)),
+                          ("reference", lambda h: h.references.append(B(f).data_arrays["a"]))],
+            "feature": [("link type", lambda h: setattr(h, "link_type", "indexed")),
+                        ("data", lambda h: setattr(h, "data", B(f).data_arrays["v"]))],
+            "source": [("child", lambda h: h.create_source("deep", "t"))],
+            "section": [("new property", lambda h: h.create_property("q", [1, 2])),
+                        ("item assignment", lambda h: h.__setitem__("q", [3, 4, 5])),
+                        ("subsection", lambda h: h.create_section("sub", "t")),
+                        ("delete property", lambda h: h.props.__delitem__("q"))],
+            "float property": [("values", lambda h: setattr(h, "values", [9.5])),
+                               ("extend", lambda h: h.extend_values([1.25, 2.25])),
+                               ("fewer values", lambda h: setattr(h, "values", [0.5, 0.75]))],
+            "int property": [("extend", lambda h: h.extend_values([3, 4])),
+                             ("values", lambda h: setattr(h, "values", [7])),
+                             ("extend again", lambda h: h.extend_values([8, 9]))],
+            "sampled dimension": [("offset", lambda h: setattr(h, "offset", 1.0)),
+                                  ("interval", lambda h: setattr(h, "sampling_interval", 0.25)),
+                                  ("unit", lambda h: setattr(h, "unit", "ms"))],
+            "range dimension": [("ticks", lambda h: setattr(h, "ticks", [2.0, 2.5, 4.0]))],
+            "set dimension": [("labels", lambda h: setattr(h, "labels", ["p", "q", "r"]))],
+        }
+        clock = [1000]
+        for kind, get in getters.items():
+            A = get(f)
+            xintrospect(A)                     # read everything once through A
+            muts = []
+            for name, writable in readable_props(A):
+                if writable and (name in VERBATIM or name == "type"):
+                    muts.append(("%s = 'v1'" % name, lambda h, name=name: setattr(h, name, "v1")))
+                    muts.append(("%s = 'v2'" % name, lambda h, name=name: setattr(h, name, "v2")))
+            if hasattr(A, "force_updated_at"):
+                def stamp(h):
+                    clock[0] += 7
+                    h.force_updated_at(clock[0])
+                muts.append(("force_updated_at", stamp))
+            muts += special.get(kind, [])
+            for desc, mut in muts:
+                evals += 1
+                try:
+                    with contextlib.redirect_stdout(io.StringIO()):
+                        mut(get(f))
+                except Exception:
+                    continue        # a refused call changes nothing (C12); nothing to compare
+                got, ref = xintrospect(A), xintrospect(get(f))
+                if got != ref:
+                    fields = sorted(k for k in set(got) | set(ref) if got.get(k) != ref.get(k))
+                    fails.append(Failure(
+                        "a live %s handle shows another state than a fresh handle after '%s' was done through a second "
+                        "handle of the same entity" % (kind, desc),
+                        {"scenario": "two-handle-sweep", "kind": kind, "mutation": desc},
+                        {k: got.get(k) for k in fields[:4]}, {k: ref.get(k) for k in fields[:4]},
+                        "handle:" + kind.split()[-1]))
+                    A = get(f)
+                    xintrospect(A)
+    finally:
+        try:
+            f.close()
+        except Exception:
+            pass
+        try:
+            os.remove(path)
+        except OSError:
+            pass
+    return fails, evals
+
 
 def oracle(ctx, broken, hints):
     n = ctx.budget(12, 80) * (3 if broken else 1)
@@ -1314,6 +1485,9 @@ def oracle(ctx, broken, hints):
     failures += fs
     evals += e
     fs, e = attribute_sweep(ctx)
+    failures += fs
+    evals += e
+    fs, e = two_handle_sweep(ctx)
     failures += fs
     evals += e
     for k in range(n):
@@ -1344,6 +1518,8 @@ def replay_failure(ctx, fj):
         fs, _ = rich_scenario(ctx, inp["key"], int(inp.get("steps", 70)))
     elif inp.get("scenario") == "attribute-sweep":
         fs, _ = attribute_sweep(ctx)
+    elif inp.get("scenario") == "two-handle-sweep":
+        fs, _ = two_handle_sweep(ctx)
     else:
         fs, _ = fixed_scenarios(ctx)
     for f in fs:
